@@ -561,6 +561,31 @@ let life_run (line : string) : string =
   ignore obj_open;
   String.concat " " outs
 
+(* ---------- socket activation (see harness/cmd/h_act/main.go) ---------- *)
+let rec z_of_int (n : int) : z =
+  if n = 0 then Z0 else if n > 0 then Zpos (pos_of_int n) else Zneg (pos_of_int (- n))
+let int_of_z = function Z0 -> 0 | Zpos p -> int_of_pos p | Zneg p -> - (int_of_pos p)
+let bytes_of_string (s : string) : n list = List.init (String.length s) (fun i -> n_of_int (Char.code s.[i]))
+
+let act_run (line : string) : string =
+  match fields line with
+  | [pidmode; fds; names; kinds] ->
+    let opt s = if s = "-" then None else if s = "EMPTY" then Some [] else Some (bytes_of_string s) in
+    let pid = 4242 in
+    let lp = (match pidmode with
+        | "match" -> Some (bytes_of_string (string_of_int pid))
+        | "plus" -> Some (bytes_of_string ("+" ^ string_of_int pid))
+        | "differ" -> Some (bytes_of_string "1")
+        | "garbage" -> Some (bytes_of_string "abc")
+        | _ -> None) in
+    let e = { e_pid = z_of_int pid; e_listen_pid = lp; e_listen_fds = opt fds; e_fdnames = opt names } in
+    let ks = if kinds = "-" then [] else String.split_on_char ',' kinds in
+    let is_socket fd = let i = int_of_z fd - 3 in i >= 0 && i < List.length ks && List.nth ks i = "s" in
+    (match choose_listener e is_socket with
+     | LInherited fd -> "inherited:" ^ string_of_int (int_of_z fd - 3)
+     | LBindAddress -> "fallback")
+  | _ -> failwith "act-run"
+
 let split_ws (l : string) : string list =
   List.filter (fun x -> x <> "") (String.split_on_char ' ' l)
 
@@ -626,6 +651,7 @@ let handle_line (cmd : string) (line : string) : string =
   | "reg-run" -> reg_run line
   | "addr-run" -> addr_run line
   | "life-run" -> life_run line
+  | "act-run" -> act_run line
   | _ -> handle cmd line
 
 let () =
